@@ -21,6 +21,7 @@ import (
 	"strings"
 	"sync"
 	"testing"
+	"time"
 
 	"github.com/MixinNetwork/mixin/common"
 	"github.com/MixinNetwork/mixin/config"
@@ -106,6 +107,8 @@ type vsyWorld struct {
 	asset  crypto.Hash
 	ntx    int
 	// glue of getSyncPointOffset / syncToNeighborLoop
+	pc     string // "poll" | "head" | "since": where the loop of syncToNeighborLoop stands
+	hc     int
 	graph  map[crypto.Hash]*SyncPoint
 	have   bool
 	offset uint64
@@ -462,7 +465,30 @@ func (w *vsyWorld) setFails(idx []int) {
 }
 
 func (w *vsyWorld) backToPoll() {
+	w.pc, w.hc = "poll", 0
 	w.graph, w.have, w.offset = nil, false, 0
+}
+
+// syncToNeighborLoop after getSyncPointOffset returned a graph
+func (w *vsyWorld) endPoll() {
+	points := w.h.BuildGraph()
+	w.local = make(map[crypto.Hash]*SyncPoint)
+	for _, n := range points {
+		w.local[n.NodeId] = n
+	}
+	w.pc, w.hc = "head", 1
+	w.emit(vM{"ev": "EndPoll", "hl": w.points(points), "nodes": len(w.h.ReadAllNodesWithoutState())})
+}
+
+func (w *vsyWorld) afterHead(c int) {
+	switch {
+	case c < len(w.ids):
+		w.hc = c + 1
+	case w.offset > 0:
+		w.pc, w.hc = "since", 0
+	default:
+		w.backToPoll()
+	}
 }
 
 func (w *vsyWorld) doHead(c int, fails []int) {
@@ -526,11 +552,14 @@ func (w *vsyWorld) step(st vsyStep) {
 		w.emit(vM{"ev": "Publish", "g": st.G})
 	case "Poll":
 		// getSyncPointOffset, one iteration that finds a graph in the ring
+		// (the generated behaviours use scaled constants: a step the real loop is not at is left out)
+		if w.pc != "poll" {
+			return
+		}
 		var g []*SyncPoint
 		select {
 		case g = <-w.p.syncRing:
 		default:
-			w.emit(vM{"ev": "Poll", "empty": true})
 			return
 		}
 		graph := make(map[crypto.Hash]*SyncPoint)
@@ -552,38 +581,67 @@ func (w *vsyWorld) step(st vsyStep) {
 		reads, nr := vsyReads(w.h.reads)
 		w.emit(vM{"ev": "Poll", "empty": false, "g": w.points(g), "lp": w.points(local), "off": off, "err": err != nil, "res": res,
 			"offset": w.offset, "reads": reads, "nr": nr})
+	case "PollLoop":
+		// the REAL getSyncPointOffset: it reads what the ring holds, sleeps, and returns with the first
+		// graph it reads after one second - a late copy of the neighbour's current graph (st.G)
+		if w.pc != "poll" || w.have || len(w.p.syncRing) == 0 {
+			return
+		}
+		before := len(w.p.syncRing)
+		late := w.toPoints(st.G)
+		go func() {
+			time.Sleep(1200 * time.Millisecond)
+			w.p.syncRing <- late
+		}()
+		w.h.reads = nil
+		var graph map[crypto.Hash]*SyncPoint
+		var off uint64
+		res, _ := vCall(func() error {
+			graph, off = w.me.getSyncPointOffset(w.p)
+			return nil
+		})
+		time.Sleep(10 * time.Millisecond)
+		w.emit(vM{"ev": "Publish", "g": st.G})
+		consumed := before + 1 - len(w.p.syncRing)
+		w.graph, w.have, w.offset = graph, graph != nil, off
+		reads, nr := vsyReads(w.h.reads)
+		w.emit(vM{"ev": "PollLoop", "consumed": consumed, "graph": w.pointsOfMap(graph), "isnil": graph == nil, "offset": off, "res": res,
+			"reads": reads, "nr": nr})
 	case "EndPoll":
-		// syncToNeighborLoop after getSyncPointOffset returned a graph
-		points := w.h.BuildGraph()
-		w.local = make(map[crypto.Hash]*SyncPoint)
-		for _, n := range points {
-			w.local[n.NodeId] = n
+		if w.pc != "poll" || !w.have {
+			return
 		}
-		w.emit(vM{"ev": "EndPoll", "hl": w.points(points), "nodes": len(w.h.ReadAllNodesWithoutState())})
+		w.endPoll()
 	case "Head":
-		w.doHead(st.C, st.Fails)
-		if st.C == len(w.ids) && w.offset == 0 {
-			w.backToPoll()
+		if w.pc != "head" || w.hc != st.C {
+			return
 		}
+		w.doHead(st.C, st.Fails)
+		w.afterHead(st.C)
 	case "Since":
+		if w.pc != "since" {
+			return
+		}
 		w.doSince(st.Fail)
 	case "Pass":
 		// a whole pass of syncToNeighborLoop: head push for every node, then the stream until an error class
-		points := w.h.BuildGraph()
-		w.local = make(map[crypto.Hash]*SyncPoint)
-		for _, n := range points {
-			w.local[n.NodeId] = n
+		if w.pc != "poll" || !w.have {
+			return
 		}
-		w.emit(vM{"ev": "EndPoll", "hl": w.points(points), "nodes": len(w.h.ReadAllNodesWithoutState())})
+		w.endPoll()
 		for c := 1; c <= len(w.ids); c++ {
-			w.doHead(c, nil)
+			w.doHead(c, st.Fails)
+			w.afterHead(c)
 		}
-		if w.offset == 0 {
-			w.backToPoll()
+		if w.pc != "since" {
 			return
 		}
 		for k := 0; k < st.Max; k++ {
-			if w.doSince(0) != "OK" {
+			fail := 0
+			if k == 0 {
+				fail = st.Fail
+			}
+			if w.doSince(fail) != "OK" {
 				return
 			}
 		}
@@ -605,6 +663,7 @@ func (w *vsyWorld) step(st vsyStep) {
 func vsyRun(dir string, wk *vsyWalk) (out []vM) {
 	w := vsyNewWorld(dir, wk)
 	defer w.store.Close()
+	w.pc = "poll"
 	gen := []vM{}
 	for i, s := range w.snaps {
 		gen = append(gen, vM{"c": s.c, "n": s.n, "t": s.t, "p": i})
